@@ -22,12 +22,129 @@ def _statekey(a):
     return lv(a)
 
 
+def strset(f, e, depth=0):
+    """the set of string literals an expression may evaluate to (literal, ?: of literals, local variable all of whose
+    assignments resolve); None if unknown"""
+    e = strip(e)
+    if e is None or depth > 4:
+        return None
+    if e["k"] == "Str":
+        return {e["s"]}
+    if e["k"] == "Cond":
+        a, b = strset(f, e["c"][1], depth + 1), strset(f, e["c"][2], depth + 1)
+        return None if a is None or b is None else a | b
+    if e["k"] == "Ref" and e.get("dk") in ("local", "slocal"):
+        out = set()
+        seen = False
+        for n in f.walk():
+            rhs = None
+            if n["k"] == "Var" and n["n"] == e["n"] and n.get("c") and n["c"][0] is not None:
+                rhs = n["c"][0]
+            else:
+                a = assigned(n)
+                if a and lv(a[0]) == e["n"]:
+                    if a[1] != "=" or a[2] is None:
+                        return None
+                    rhs = a[2]
+            if rhs is not None:
+                seen = True
+                r = strset(f, rhs, depth + 1)
+                if r is None:
+                    return None
+                out |= r
+        return out if seen else None
+    return None
+
+
+def _local_states(f, tags):
+    st2tag = {}
+    for c in f.calls():
+        if c.get("fn") is not None:
+            continue
+        ce = strip(c["c"][0])
+        if ce["k"] != "Member":
+            continue
+        a = args(c)
+        if ce["f"] == "new_child" and len(a) >= 3:
+            for t in sorted(strset(f, a[2]) or ()):
+                st2tag.setdefault(_statekey(a[1]), set()).add(t)
+                tags.setdefault(t, (f.name, f.loc(c)))
+    return st2tag
+
+
+def param_states(u, local):
+    """(function, state parameter) -> element tags, propagated from the call sites: a helper that receives the element's
+    state from its caller writes attributes of the caller's element"""
+    ptag = {k: {v} for k, v in PARAM_STATE.items()}
+    funcs = {f.name: f for f in u.funcs(only_main=True)}
+    changed = True
+    rounds = 0
+    while changed and rounds < 10:
+        changed = False
+        rounds += 1
+        for f in funcs.values():
+            for c in f.calls():
+                g = funcs.get(c.get("fn"))
+                if g is None:
+                    continue
+                for i, a in enumerate(args(c)):
+                    if i >= len(g.params):
+                        break
+                    sk = _statekey(a)
+                    if sk is None:
+                        continue
+                    ts = local[f.name].get(sk) or ptag.get((f.name, sk))
+                    if not ts:
+                        continue
+                    tp = g.unit.types[g.params[i]["t"]]
+                    if "hwloc__xml_export_state" not in tp.get("s", "") and tp.get("prec") != "hwloc__xml_export_state_s":
+                        continue
+                    key = (g.name, g.params[i]["n"])
+                    if not ts <= ptag.get(key, set()):
+                        ptag.setdefault(key, set()).update(ts)
+                        changed = True
+    return ptag
+
+
 def export_table(u):
     """-> {tag: {attr name: (function, loc)}}, {child tag: (function, loc)}"""
     W = {}
     tags = {}
+    local = {f.name: _local_states(f, tags) for f in u.funcs(only_main=True)}
+    ptag = param_states(u, local)
     for f in u.funcs(only_main=True):
-        st2tag = {}
+        st2tag = local[f.name]
+        for c in f.calls():
+            if c.get("fn") is not None:
+                continue
+            ce = strip(c["c"][0])
+            if ce["k"] == "Member" and ce["f"] == "new_prop":
+                a = args(c)
+                names = strset(f, a[1])
+                if not names:
+                    continue
+                sk = _statekey(a[0])
+                ts = st2tag.get(sk) or ptag.get((f.name, sk))
+                if not ts:
+                    ts = ["?" + f.name]
+                for t in ts:
+                    for nm in sorted(names):
+                        W.setdefault(t, {}).setdefault(nm, (f.name, f.loc(c)))
+    return W, tags
+
+
+_NAMEVARS = {}
+
+
+def name_vars(u):
+    """per function: the variables that hold an attribute name (2nd argument of the next_attr callback) or a child tag (3rd
+    argument of find_child), including parameters that receive one at some call site (fixpoint over direct calls)"""
+    if id(u) in _NAMEVARS:
+        return _NAMEVARS[id(u)]
+    funcs = {f.name: f for f in u.funcs(only_main=True)}
+    av = {n: set() for n in funcs}
+    tv = {n: set() for n in funcs}
+    for f in funcs.values():
         for c in f.calls():
             if c.get("fn") is not None:
                 continue
@@ -35,46 +152,51 @@ def export_table(u):
             if ce["k"] != "Member":
                 continue
             a = args(c)
-            if ce["f"] == "new_child" and len(a) >= 3:
-                s = strip(a[2])
-                if s["k"] == "Str":
-                    st2tag.setdefault(_statekey(a[1]), set()).add(s["s"])
-                    tags.setdefault(s["s"], (f.name, f.loc(c)))
-                elif s["k"] == "Cond":
-                    for alt in (strip(s["c"][1]), strip(s["c"][2])):
-                        if alt["k"] == "Str":
-                            st2tag.setdefault(_statekey(a[1]), set()).add(alt["s"])
-                            tags.setdefault(alt["s"], (f.name, f.loc(c)))
-        for c in f.calls():
-            if c.get("fn") is not None:
-                continue
-            ce = strip(c["c"][0])
-            if ce["k"] == "Member" and ce["f"] == "new_prop":
-                a = args(c)
-                s = strip(a[1])
-                if s["k"] != "Str":
+            if ce["f"] == "next_attr" and len(a) >= 2:
+                k = _statekey(a[1])
+                if k:
+                    av[f.name].add(k)
+            if ce["f"] == "find_child" and len(a) >= 3:
+                k = _statekey(a[2])
+                if k:
+                    tv[f.name].add(k)
+    changed = True
+    rounds = 0
+    while changed and rounds < 10:
+        changed = False
+        rounds += 1
+        for f in funcs.values():
+            for c in f.calls():
+                g = funcs.get(c.get("fn"))
+                if g is None:
                     continue
-                sk = _statekey(a[0])
-                ts = st2tag.get(sk) or ([PARAM_STATE[(f.name, sk)]] if (f.name, sk) in PARAM_STATE else None)
-                if ts is None:
-                    ts = ["?" + f.name]
-                for t in ts:
-                    W.setdefault(t, {}).setdefault(s["s"], (f.name, f.loc(c)))
-    return W, tags
+                for i, a in enumerate(args(c)):
+                    if i >= len(g.params):
+                        break
+                    k = lv(a)
+                    if k is None:
+                        continue
+                    for src_, dst in ((av, av), (tv, tv)):
+                        if k in src_[f.name] and g.params[i]["n"] not in dst[g.name]:
+                            dst[g.name].add(g.params[i]["n"])
+                            changed = True
+    _NAMEVARS[id(u)] = (av, tv)
+    return av, tv
 
 
 def import_names(u, fname):
     f = u.func(fname)
     if f is None:
         return None, None
+    av, tv = name_vars(u)
     attrs, tags = set(), set()
     for c in f.calls("strcmp"):
         a = args(c)
         for x, y in ((a[0], a[1]), (a[1], a[0])):
             if strip(y)["k"] == "Str" and lv(x) is not None:
-                if lv(x) in ("attrname", "name"):
+                if lv(x) in av[f.name]:
                     attrs.add(strip(y)["s"])
-                elif lv(x) in ("tag", "childtag"):
+                elif lv(x) in tv[f.name]:
                     tags.add(strip(y)["s"])
     return attrs, tags
 
@@ -86,7 +208,7 @@ def xmltab(chk, P, rule="R-XMLTAB"):
     anchor = P.need_func("hwloc__xml_export_object_contents", "topology-xml.c")
     for tag in sorted(W):
         if tag.startswith("?"):
-            chk.inst(rule, tag[1:], "unattributed-state", False, "properties are written in %s on a state whose element is not known to the rule table" % tag[1:])
+            chk.broke("%s: properties are written in %s on a state whose element cannot be attributed (analysis limitation, not a violation)" % (rule, tag[1:]))
             continue
         imps = IMPORTERS.get(tag)
         if imps is None:
